@@ -241,7 +241,7 @@ def ep_case(rng):
         else:                       # unphased singletons need diploid individuals
             ts = gen.sim_ts(rng, n=rng.randint(1, 4), historical=False, ploidy=2,
                             L=rng.choice([20, 100, 1000]), mu=None)
-        if ts.num_mutations >= 1:
+        if 1 <= ts.num_mutations <= 1500:
             break
     ts, kinds = K.maybe_exotic(rng, ts)
     L = ts.sequence_length
